@@ -1,13 +1,16 @@
 package main
 
 import (
+	"bufio"
 	"bytes"
 	gocontext "context"
 	"fmt"
+	"io"
 	"sort"
 	"strconv"
 	"strings"
 	"sync"
+	"sync/atomic"
 	"time"
 
 	"github.com/brutella/hc/hap"
@@ -37,6 +40,8 @@ func runConnWrite(id string, toks []string) (res string) {
 		return runReadWriteRace(toks)
 	case "cwclose":
 		return runWritersAndClose(toks)
+	case "wcopy":
+		return runStandardWriters(toks)
 	}
 	k := sharedKey(toks[1])
 	var pref []int
@@ -74,11 +79,15 @@ func runConnWrite(id string, toks []string) (res string) {
 		time.Sleep(3 * time.Millisecond) // the first tick is on its way when the writers start
 	}
 	var wg sync.WaitGroup
+	var badCount int32
 	for _, p := range payloads {
 		wg.Add(1)
 		go func(b []byte) {
 			defer wg.Done()
-			con.Write(b)
+			// io.Writer: a write that succeeds reports len(b), whatever went over the wire
+			if n, err := con.Write(b); err == nil && n != len(b) {
+				atomic.StoreInt32(&badCount, int32(n-len(b)))
+			}
 		}(unhex(p))
 	}
 	grace := 30 * time.Millisecond
@@ -164,6 +173,9 @@ func runConnWrite(id string, toks []string) (res string) {
 	pt, ok := refOpenAll(rk, 0, stream)
 	if !ok {
 		return fmt.Sprintf("undecryptable writes=%d maxpending=%d", nw, maxPending)
+	}
+	if d := atomic.LoadInt32(&badCount); d != 0 {
+		return fmt.Sprintf("write-count-off-by %d", d)
 	}
 	// every payload must appear intact and contiguous: the plaintext must be a concatenation of a permutation
 	var want []string
@@ -464,7 +476,6 @@ func runWriteInReadDeadlineWindow(toks []string) string {
 	return "ok"
 }
 
-
 // case: cwclose <key> <payload> <payload> ...
 // The first writer is in flight at the socket (it holds the write lock), the others wait for the lock, then the connection
 // is closed from another goroutine (the server gives the connection up, the transport stops), then the socket lets the first
@@ -530,4 +541,70 @@ func runWritersAndClose(toks []string) string {
 		return fmt.Sprintf("undecryptable bytes=%d", len(stream))
 	}
 	return fmt.Sprintf("ok plain=%d", len(pt))
+}
+
+// case: wcopy <key> <n>
+// n bytes written into the connection by the standard library's writers (io.Copy from a plain reader, a bufio.Writer of 4096
+// bytes as net/http uses, one Write of everything): what a conformant peer decrypts must be exactly the bytes, each time.
+func runStandardWriters(toks []string) (res string) {
+	defer func() {
+		if r := recover(); r != nil {
+			res = fmt.Sprint("panic ", r)
+		}
+	}()
+	k := sharedKey(toks[1])
+	n, _ := strconv.Atoi(toks[2])
+	data := make([]byte, n)
+	for i := range data {
+		data[i] = byte(i*7 + i/251)
+	}
+	var out []string
+	for _, how := range []string{"copy", "bufio", "write"} {
+		sc, con, ctx := newScripted(nil)
+		sess, err := newServerSession(k)
+		if err != nil {
+			return "setup-error"
+		}
+		s := ctx.GetSessionForConnection(sc)
+		s.SetCryptographer(sess)
+		s.Decrypter()
+		var werr error
+		func() {
+			defer func() {
+				if r := recover(); r != nil {
+					werr = fmt.Errorf("panic")
+				}
+			}()
+			switch how {
+			case "copy":
+				_, werr = io.Copy(con, struct{ io.Reader }{bytes.NewReader(data)})
+			case "bufio":
+				bw := bufio.NewWriterSize(con, 4096)
+				if _, werr = bw.Write(data); werr == nil {
+					werr = bw.Flush()
+				}
+			case "write":
+				var m int
+				if m, werr = con.Write(data); werr == nil && m != len(data) {
+					werr = fmt.Errorf("count")
+				}
+			}
+		}()
+		sc.mu.Lock()
+		var stream []byte
+		for _, w := range sc.written {
+			stream = append(stream, w...)
+		}
+		sc.mu.Unlock()
+		pt, ok := refOpenAll(refKey(k[:], "Control-Read-Encryption-Key"), 0, stream)
+		switch {
+		case werr != nil:
+			out = append(out, how+"=err:"+strings.Replace(werr.Error(), " ", "_", -1))
+		case !ok || !bytes.Equal(pt, data):
+			out = append(out, fmt.Sprintf("%s=differs(%d_of_%d)", how, len(pt), len(data)))
+		default:
+			out = append(out, how+"=ok")
+		}
+	}
+	return strings.Join(out, " ")
 }
